@@ -120,7 +120,7 @@ def locate(G, octets, stuffing, after):
             seg = G[s:e]
             if stuffing:
                 o, esc = sp.unstuff(seg)
-                if o == octets and not esc and 0x7E not in seg: return e
+                if o == octets and 0x7E not in seg: return e          # a frame may be closed with an escape octet pending (abort detection off)
                 if 0x7E in seg: break
             elif seg == octets: return e
     return None
